@@ -72,8 +72,26 @@ def run(ctx) -> None:
     ctx.rule("C04.R4-user-variables", "user variables are injected as platform-stage variables of every platform and stage")
     ctx.rule("C04.R5-undefined-variable-is-error", "an unknown variable is swallowed only under ignore_errors or for 'replica' in primitive mode")
     ctx.rule("C04.R6-typed-options", "every option the schema admits as bool/int/float has a string-safe converter")
+    ctx.rule("C04.R7-resolver-cache-transparent", "the resolver's cache cannot return a value computed from an older description "
+                                                  "(write => invalidate, alias hand-out, key coverage; the C08 analysis re-used)")
 
     m = ctx.repo.module(FLOWIR)
+
+    # ---------------- R7: the layered value is what a query returns only if the cache is transparent -----------------
+    from checks import c08
+    from vlib.report import Ctx as _Ctx
+    sub_ctx = _Ctx("C08", ctx.tier, ctx.repo)
+    c08.run(sub_ctx)
+    n7 = 0
+    for o in sub_ctx.obligations:
+        if o["rule"] in ("C08.R1-write-invalidate", "C08.R2-alias-handout", "C08.R2b-callsite", "C08.R4-key", "C08.R4b-pattern", "C08.R3-private-values"):
+            o2 = dict(o)
+            o2["rule"] = "C04.R7-resolver-cache-transparent"
+            o2["what"] = "[%s] %s" % (o["rule"], o["what"])
+            ctx.obligations.append(o2)
+            n7 += 1
+    ctx.functions_analysed |= sub_ctx.functions_analysed
+    ctx.floor("C04.R7-resolver-cache-transparent", n7, 30, "cache-soundness obligations re-used from the C08 analysis")
 
     # ---------------- R1 -------------------------------------------------------------------------------
     gcv = m.func("FlowIRConcrete.get_component_variables")
